@@ -626,12 +626,14 @@ def run(ctx):
     except Exception as e:  # noqa
         tpl_err = f"template export failed: {type(e).__name__}: {e}"[:400]
     # ---- 1b. extension (session 3): storage / calldata / pre-cancun sources: observed tables, syntactic ties, theorems
+    import time
     x_err, x_tie = None, {"ok": True, "skipped": True}
     if gen_err is None and b["ok"]:
         try:
             from vlib import c06_x as CX
             CX.generate()
             xg, x_tie = CX.build(ctx)
+            ctx.log(f"non-cancun-memory source tables + ties + theorems built ({time.time() - ctx.t0:.1f}s since start)")
             if not xg["ok"]:
                 x_err = "observed template tables (non-cancun-memory sources) do not compile: " + str(xg.get("out"))[-300:]
         except Exception as e:  # noqa
